@@ -62,7 +62,7 @@ fn k04_struct_empty() {
     let compact: bool = kani::any();
     let f = field(false, 0, true);
     let s = struct_with(&f, true, compact);
-    let mut diagnostics = Diagnostics::verif_with_capacity(2);
+    let mut diagnostics = Diagnostics::new();
     validate_struct(&s, &mut diagnostics);
     kani::cover!(compact, "empty compact struct reachable");
     kani::cover!(!compact, "empty ordinary struct reachable");
@@ -94,7 +94,7 @@ fn k04_struct_one_field() {
     let tag: u32 = kani::any();
     let f = field(tagged, tag, true);
     let s = struct_with(&f, false, compact);
-    let mut diagnostics = Diagnostics::verif_with_capacity(2);
+    let mut diagnostics = Diagnostics::new();
     validate_struct(&s, &mut diagnostics);
     let want = compact && tagged;
     kani::cover!(want && tag == 0, "compact struct with a field tagged 0 reachable");
